@@ -613,7 +613,10 @@ Step(mm) ==
                       IF fwd > rest THEN Halt(mm)
                       ELSE LET cg == fwd + (IF val > 0 THEN 2300 ELSE 0)
                                f1 == [f EXCEPT !.stack = Drop(st, k), !.gas = rest - fwd, !.pc = pc + 1, !.mem = mem2, !.rdata = <<>>]
-                               m1 == SetTop([mm EXCEPT !.accA = @ \cup {to}], f1)
+                               \* (the target and, for a delegated account, the delegation target are accessed -- and
+                               \* stay warm -- when the instruction is priced, also if the call then fails for lack of
+                               \* funds or depth and no frame is made)
+                               m1 == SetTop([mm EXCEPT !.accA = @ \cup {to} \cup (IF dlg # 0 THEN {dlg} ELSE {})], f1)
                                input == MemRead(mem2, inOff, inLen) IN
                            IF op = 241 THEN DoCall(m1, "call", cg, to, to, self, val, val, input, outOff, outLen, f.static)
                            ELSE IF op = 242 THEN DoCall(m1, "callcode", cg, self, to, self, val, val, input, outOff, outLen, f.static)
